@@ -36,4 +36,8 @@ TABLES = [
     dict(opts=[("-a", 0), ("-b", 1), ("--long", 1), ("-z", 0), ("--zed", 0), ("-q", 1)], missing=None, spread=130),
     dict(opts=[("-x", 0), ("-y", 1), ("--why", 0), ("-w", 0)], missing=2, spread=255),
     dict(opts=[("--first", 1), ("-s", 0), ("-t", 1), ("--third", 0), ("-u", 0)], missing=None, spread=300),
+    # one-line handlers: consecutive source lines, the last option label directly above GETOPT_DEFAULT
+    dict(opts=[("-h", 0), ("-v", 0), ("--version", 0), ("-o", 1), ("-q", 0)], missing=None, compact=True),
+    dict(opts=[("-x", 1), ("--long", 1), ("-y", 0)], missing=3, compact=True),
+    dict(opts=[("-z", 0)], missing=None, compact=True),
 ]
